@@ -16,6 +16,7 @@
 (*   ver    `version`                                                      *)
 (*   audit  `audit_log`: sequence of result tokens "S" / "F" / "P"         *)
 (*   parent metadata.parent_group (0 = None, else a token)                 *)
+(*   name   metadata.name                                                  *)
 (* A role is [k, p]: kind "Leader" / "Member" / "Observer" and the set of  *)
 (* permission flags that are true.  A result is [cls, msg, a, b]: the      *)
 (* variant of ThresholdError (or "Ok" / "Panic"), its message, and its     *)
@@ -123,7 +124,7 @@ UpdateThreshold(s, nt) ==
 MatchesFilter(p, f) == f = "All" \/ (f = "Leaders" /\ p.role.k = "Leader") \/ (f = "Members" /\ p.role.k = "Member")
                        \/ (f = "Observers" /\ p.role.k = "Observer")
 ByRole(s, f) == IdsOf(SelectSeq(s.act, LAMBDA p : MatchesFilter(p, f)))
-Hierarchy(s) == [t |-> s.t, n |-> s.n, parent |-> s.parent]
+Hierarchy(s) == [t |-> s.t, n |-> s.n, parent |-> s.parent, name |-> s.name]
 
 (* ---- validate ---- *)
 DupIdx(q) == {i \in 1..Len(q) : \E j \in 1..(i - 1) : q[j].id = q[i].id}
@@ -151,7 +152,8 @@ Stats(s) == [total |-> s.n, active |-> ActiveCount(s), pending |-> Len(s.pend),
              fail |-> Cardinality({i \in 1..Len(s.audit) : s.audit[i] = "F"})]
 
 (* ---- ThresholdGroupManager::create_group(config): s0 is what the caller had before ---- *)
-Fresh(cfg) == [n |-> Len(cfg.parts), t |-> cfg.t, act |-> cfg.parts, pend |-> <<>>, ver |-> 1, audit |-> <<"S">>, parent |-> cfg.parent]
+Fresh(cfg) == [n |-> Len(cfg.parts), t |-> cfg.t, act |-> cfg.parts, pend |-> <<>>, ver |-> 1, audit |-> <<"S">>, parent |-> cfg.parent,
+               name |-> cfg.name]
 Create(s0, cfg) ==
   IF cfg.t > Len(cfg.parts) THEN [s |-> s0, r |-> Invalid("Threshold cannot exceed number of participants")]
   ELSE IF cfg.t = 0 THEN [s |-> s0, r |-> Invalid("Threshold must be at least 1")]
